@@ -346,6 +346,21 @@ func runE(c ECase, rec *h.Rec) {
 			rec.Failf("member of %d bytes: compress/gzip gives %d bytes, err %v", c.Target, len(got), err)
 			return
 		}
+		// the library's own reader must accept the largest legal member too
+		for _, rd := range []int{1, 2} {
+			r, err := bgzf.NewReader(bytes.NewReader(o.Out), rd)
+			if err != nil {
+				rec.Failf("member of %d bytes: bgzf.NewReader(rd=%d) rejects the writer's output: %v", c.Target, rd, err)
+				return
+			}
+			var back bytes.Buffer
+			_, err = back.ReadFrom(r)
+			r.Close()
+			if err != nil || !bytes.Equal(back.Bytes(), o.Model) {
+				rec.Failf("member of %d bytes: bgzf.Reader(rd=%d) reads %d bytes (err %v), %d were written", c.Target, rd, back.Len(), err, len(o.Model))
+				return
+			}
+		}
 		rec.Class(fmt.Sprintf("legal_size_%d", c.Target))
 	} else {
 		if !o.Overflow {
